@@ -233,6 +233,34 @@ func c14State(c *core.Ctx, w *World, when string) {
 				}
 			}
 
+			// The same proof object combined twice, as a client does that keeps one cached
+			// proof and merges block proofs into it: A lives in slices with spare capacity
+			// (as proofs grown by append or by Proof.Update do); after AddProof(A, B) the
+			// object A must still be the valid proof it was, and AddProof(A, B) must give the
+			// canonical union again.
+			{
+				spare := func(hs_ []Hash) []Hash {
+					out := make([]Hash, len(hs_), len(hs_)+len(pb.Proof)+len(hb)+5)
+					copy(out, hs_)
+					return out
+				}
+				tspare := make([]uint64, len(pa.Targets), len(pa.Targets)+len(pb.Targets)+5)
+				copy(tspare, pa.Targets)
+				objA := u.Proof{Targets: tspare, Proof: spare(pa.Proof)}
+				objHA := spare(ha)
+				c.Eval(1)
+				u.AddProof(objA, cloneProof(pb), objHA, cloneHashes(hb), f.N)
+				if !eqProof(objA, pa) || !eqHashes(objHA, ha) {
+					c.Violate("AddProof", "first-proof-no-longer-valid-after-the-call", ord, fmt.Sprintf("%s: proof A (slices with spare capacity) was %s, is %s after AddProof(A, B)", desc, proofStr(pa), proofStr(objA)))
+					return
+				}
+				uh2, up2 := u.AddProof(objA, cloneProof(pb), objHA, cloneHashes(hb), f.N)
+				if cl, detail := checkCached(f, uh2, up2, union); cl != "" {
+					c.Violate("AddProof", cl, joinTrig(ord, "second-use-of-the-same-proof"), fmt.Sprintf("%s: %s", desc, detail))
+					return
+				}
+			}
+
 			// GetProofSubset on proof A
 			var subs [][]int // index lists into as
 			idx := make([]int, len(as))
